@@ -3,6 +3,11 @@ EXTENDS Group
 NP21 == [t1 |-> 2, t2 |-> 1]
 NP32 == [t1 |-> 3, t2 |-> 2]
 CTP == <<"t1", 0>>
+\* 3-member exhaustive run: current-generation requests only and no commits (stale generations, unknown members and
+\* commits are independent of the third member and are covered exhaustively by the 2-member configurations)
+NextCore == \/ \E c \in Members : \/ \E s \in SubsChoices : Join(c, s)
+                                  \/ Sync(c, 0) \/ Heartbeat(c, 0) \/ Leave(c)
+            \/ Tick \/ Failover \/ DeleteGroups
 \* simulation only: a clock-heavy mix (time must pass for the C43 paths; uniform choice among ~30 requests rarely ticks)
 NextClock == \/ \E c \in Members : \/ \E s \in SubsChoices : Join(c, s)
                                    \/ Sync(c, 0) \/ Heartbeat(c, 0)
